@@ -96,6 +96,31 @@ theorem inplace_decoder_on_padded_text (lossy : Bool) (t : Buf) (i : Nat) (hi : 
     | .fuel => False :=
   StrIn.Post_unpack (StrIn.pad t) (StrIn.pad t) i _ _ (StrIn.run_spec lossy t i hi)
 
+/-- **… in terms of the text itself** (`Lemmas/StrPad.lean`: a literal that is closed inside the text is read the same with and
+    without the bytes behind the text — the look-ahead for a low surrogate never decides differently, because a literal that
+    continues with `\\u` brings its four hex digits along): when the decoder ends inside the text it has decoded exactly what
+    the specification reads at `i` in `t`; when it ends behind the text (only the sentinel quote of the padding closed the
+    literal) or reports an error, the specification finds no literal at `i` in `t` — the first is what the callers' test
+    `n > len` turns into an error -/
+theorem inplace_decoder_reads_the_text (lossy : Bool) (t : Buf) (i : Nat) (hi : i ≤ t.size) :
+    match StrIn.run lossy (StrIn.pad t) i with
+    | .ok mem cnt e =>
+      (e ≤ t.size → Spec.stringS lossy t i = some (StrBlock.bytes mem i (i + cnt), e)) ∧
+      (t.size < e → Spec.stringS lossy t i = none)
+    | .err _ => Spec.stringS lossy t i = none
+    | .fault => False
+    | .fuel => False := by
+  have h := inplace_decoder_on_padded_text lossy t i hi
+  obtain ⟨p1, p2, p3⟩ := StrIn.stringS_pad lossy t i
+  generalize StrIn.run lossy (StrIn.pad t) i = r at h ⊢
+  cases r with
+  | ok mem cnt e =>
+    obtain ⟨bs, h1, h2, _⟩ := h
+    exact ⟨fun he => by rw [h2]; exact p1 bs e h1 he, fun he => p2 bs e h1 he⟩
+  | err c => exact p3 h
+  | fault => exact h
+  | fuel => exact h
+
 /-- **… and after any earlier decodings in the same buffer** (the whole-input DOM parse decodes every string and member name
     of the document in place, one after the other, in ONE buffer): let `mem0` be any buffer of the size of the padded copy
     that still equals it from `i` on — which is what every earlier run leaves behind, by the last clause of this very
